@@ -41,10 +41,18 @@ PARTIAL = ("History-level completeness `wf_history h -> ~Known_C04 h -> chk_C04 
            "Of viol_C04's failure kinds F04_order (clause F: ServiceResolved only after ServiceFound on that channel) is "
            "excluded over all histories outside the class known_browse_expiring (C04_resolved_only_after_found_partial). "
            "For F04_complete the per-message core is proved (C04_completing_response_resolves_partial, exactly one "
-           "ServiceResolved), for the follow-up clauses the schedule invariant over all histories and the step theorems; "
-           "missing for F04_complete / F04_followup / F04_wake / F04_many / F04_labels at history level is an invariant "
-           "relating the checker's up list and chained follow-up obligations (due times, satisfied-by-question, "
-           "stale-after-new-record) to the model's pending set and retransmission queue. "
+           "ServiceResolved), for the follow-up clauses the schedule invariant over all histories and the step theorems. "
+           "Round 6 (after C05 timeliness) did not reach the remaining kinds; worked out, not proved: F04_complete needs the "
+           "invariant 'strongly alive under a browsed type => up on its channel' (kept by: ServiceRemoved only for instances "
+           "that are not strongly alive - the C05 safety lemmas; liveness rising only through add_or_update - aou_frame; a NEW "
+           "relevant record that leaves the instance alive puts it into `updated`, so the per-message theorem gives the "
+           "ServiceResolved) with the class 'a delivery that is not a new record turns a browsed instance strongly alive' "
+           "(= C04-last-second-refresh-not-new as a predicate on histories) besides known_browse_expiring, known_srv_targets, "
+           "known_ptr_variant, and a channel-type binding invariant for ups_current; F04_followup / F04_many need the "
+           "correspondence obligation (inst, due, try n) <-> retransmission entry (due, RResolve inst n) and open episode <-> "
+           "pending set, with the checker's stale flag = 'instance already pending'; F04_labels needs pending instances = "
+           "dotted names of delivered PTR targets (C02's decode = reference parser) outside known_dotted. F04_wake stays out "
+           "(no timers in the model). "
            "Outside the known classes the statement is checked by the monitor on model and implementation for every "
            "generated history. 'At least one address in the interface's subnet' is not used by the code and not required. "
            "Requested wake-ups are checked against the monitor's due times, the model does not compute timers.")
